@@ -128,7 +128,10 @@ def expected_result(C, exp, ctx):
             d["a"] = C.string(t[1])
         return {"err": d}
     if k == "err_userfn":
-        return {"err": {"variant": "UserFunctionError", "a": C.string(t[0]), "b": "call0"}}
+        for n in range(4):
+            if t[1].eq(e3.call_err(n)):
+                return {"err": {"variant": "UserFunctionError", "a": C.string(t[0]), "b": f"call{n}"}}
+        raise Unrealisable(f"user-function error {t[1]}")
     if k == "ok_vec":
         return {"ok": {"t": "Vec", "v": [C.value(x) for x in t[0]]}}
     if k == "ok_map":
@@ -192,9 +195,15 @@ def dispatcher_scenario(node, shape, cex):
                 results.append({"ok": C.value(e3.cache_at(key))})
                 rules.append({"op": "rule", "name": "prefill", "expr": {"k": "Function", "n": nm, "c": [lit(C.value(v0))]}})
                 pre_log.append(["call", nm, C.value(v0)])
-            results.append({"ok": C.value(e3.call_val(0))} if C.boolean(e3.call_ok(0)) else {"err": "call0"})
+            first_ok = C.boolean(e3.call_ok(0))
+            results.append({"ok": C.value(e3.call_val(0))} if first_ok else {"err": "call0"})
+            results.append({"ok": {"t": "String", "v": "FOLLOW-UP-INVOCATION"}})
             builder.append({"op": "function", "name": nm, "cacheable": cach, "results": results,
                             "pending": 1 if C.boolean(z3.Bool("call0.pending0")) else 0})
+            if C.boolean(L.leaf_ok(0)):
+                # make the cache's post-state observable: the same call once more, later in the same evaluation
+                followup = {"hit": bool(pre_log), "cach": cach, "first_ok": first_ok, "nm": nm, "arg": C.value(v0),
+                            "first": results[-2], "prefill": results[0] if pre_log else None}
     elif node == "Vec":
         nleaf = int(shape[1:])
         root = {"k": "Vec", "c": [probe(i) for i in range(nleaf)]}
@@ -210,12 +219,25 @@ def dispatcher_scenario(node, shape, cex):
     sc["probes"] = leaf_plans(C, range(nleaf))
     main = len(rules)
     rules.append({"op": "rule", "name": "main", "expr": root})
+    fu = locals().get("followup")
+    post_log, fu_exp = [], None
+    if fu is not None:
+        rules.append({"op": "rule", "name": "followup", "expr": {"k": "Function", "n": fu["nm"], "c": [lit(fu["arg"])]}})
+        if fu["cach"] and fu["hit"]:
+            fu_exp = fu["prefill"]
+        elif fu["cach"] and fu["first_ok"]:
+            fu_exp = fu["first"]
+        else:
+            fu_exp = {"ok": {"t": "String", "v": "FOLLOW-UP-INVOCATION"}}
+            post_log = [["call", fu["nm"], fu["arg"]]]
     exp = expected_result(C, case.result, None) if case.result is not None else None
     if exp == ("same-as-literal",):
         # strict node: the node on probe children must give what the same node gives on literal children with the same values
         rules.append({"op": "rule", "name": "literal", "expr": {"k": node, "c": [lit(C.value(L.leaf_val(i))) for i in range(nleaf)]}})
     sc["builder"] = builder + rules
-    return sc, main, exp, pre_log + expected_log(C, case.log)
+    if fu_exp is not None and exp is not None and exp != ("same-as-literal",):
+        exp = ("with-followup", exp, fu_exp)
+    return sc, main, exp, pre_log + expected_log(C, case.log) + post_log
 
 
 def run_scenario(helper, sc):
@@ -254,6 +276,16 @@ def judge(obs, main, exp, exp_log):
                 diffs.append(f"built ruleset gives {norm(got_all)} but the specification gives {norm(exp[2])}")
         return bool(diffs), "; ".join(diffs)
     got = outs[main]["value"]
+    if isinstance(exp, (tuple, list)) and exp and exp[0] == "with-followup":
+        diffs = []
+        if norm(got) != norm(exp[1]):
+            diffs.append(f"outcome {norm(got)} but the specification gives {norm(exp[1])}")
+        fo = outs[main + 1]["value"]
+        if norm(fo) != norm(exp[2]):
+            diffs.append(f"the same call later in the evaluation gives {norm(fo)} but the specification gives {norm(exp[2])}")
+        if exp_log is not None and norm(obs["log"]) != norm(exp_log):
+            diffs.append(f"evaluation/call log {norm(obs['log'])} but the specification gives {norm(exp_log)}")
+        return bool(diffs), "; ".join(diffs)
     if exp == ("same-as-literal",):
         exp = outs[main + 1]["value"]
     diffs = []
@@ -327,17 +359,7 @@ def two_calls_build(cex):
     pair = case.result
     a = expected_result(C, pair.terms[0], None)
     b = expected_result(C, pair.terms[1], None)
-    # the two calls are the items of one list node: the rule's outcome is the list of both values, or the first error
-    if "err" in a:
-        exp = a
-        exp_log = expected_log(C, case.log)[:1] if case.log and "UserFunctionError" in json.dumps(a) else []
-    elif "err" in b:
-        exp = b
-        exp_log = expected_log(C, case.log)
-    else:
-        exp = {"ok": {"t": "Vec", "v": [a["ok"], b["ok"]]}}
-        exp_log = expected_log(C, case.log)
-    return sc, 0, exp, exp_log
+    return sc, 0, ("outcomes", [a, b], ["first", "second"]), expected_log(C, case.log)
 
 
 ASCII_IDENT = __import__("re").compile(r"^[A-Za-z_][A-Za-z0-9_]*$")
